@@ -358,6 +358,8 @@ class Exec:
         if isinstance(y, PyConst) and isinstance(y.v, (tuple, list, set, frozenset, dict)):
             vals = [self.world.lift(v) for v in y.v]
             return z3.Or(*[self.equal(x, v, st, node) for v in vals]) if vals else z3.BoolVal(False)
+        if isinstance(y, DictIntV):
+            return y.has[zint(x)]
         f = self.cx.spec.get("__contains__")
         if f is not None:
             r = f(self, x, y, st)
@@ -536,6 +538,11 @@ class Exec:
         if isinstance(base, MapV):
             v = base.arr[zint(idx)]
             return MapV(v) if z3.is_array(v) else v
+        if isinstance(base, DictIntV):
+            k_ = zint(idx)
+            if not spec:
+                self.cx.pending.append((z3.Not(base.has[k_]), "KeyError"))
+            return base.val[k_]
         if isinstance(base, ObjV):
             h = self.world.method_handler(base.cls, "__getitem__")
             if h is not None:
